@@ -349,12 +349,19 @@ fn run_case(line: &str) -> String {
         out.push(format!("H {j} {}", describe(cmd, &a.machine)));
     }
 
+    let mut refs: Vec<Option<(String, usize)>> = vec![None; w.h.len()];
+    let full_want = {
+        let mut fullref = mk_device(&module, 5);
+        let _ = deliver(&mut fullref.cs, w.graph, &w.h, &mut VecSink::default());
+        snapshot(&mut fullref.cs, w.graph)
+    };
     for (mi, spec) in specs.split(';').filter(|s| !s.is_empty()).enumerate() {
         let (spec, batch) = match spec.strip_suffix("@batch") { Some(s) => (s, true), None => (spec, false) };
         let Some((k, m)) = mutate(&w, spec) else {
             out.push(format!("M {spec} bad-spec"));
             continue;
         };
+        let one = panic::catch_unwind(panic::AssertUnwindSafe(|| -> String {
         let mut b = mk_device(&module, seed.wrapping_mul(7919).wrapping_add(100 + mi as u64));
         let mut sink = VecSink::default();
         let mut pre_ok = true;
@@ -370,15 +377,17 @@ fn run_case(line: &str) -> String {
             }
             deliver(&mut b.cs, w.graph, std::slice::from_ref(&m), &mut sink)
         };
-        // reference replica: exactly the honest prefix
-        let mut refb = mk_device(&module, seed.wrapping_mul(7919).wrapping_add(100 + mi as u64));
-        let mut rsink = VecSink::default();
-        if k > 0 {
-            let _ = deliver(&mut refb.cs, w.graph, &w.h[..k], &mut rsink);
+        // reference replica: exactly the honest prefix (computed once per k)
+        if refs[k].is_none() {
+            let mut refb = mk_device(&module, 11);
+            let mut rsink = VecSink::default();
+            if k > 0 {
+                let _ = deliver(&mut refb.cs, w.graph, &w.h[..k], &mut rsink);
+            }
+            refs[k] = Some((snapshot(&mut refb.cs, w.graph), rsink.take().len()));
         }
-        let want = snapshot(&mut refb.cs, w.graph);
+        let (want, prefix_effects) = refs[k].clone().unwrap();
         let got = snapshot(&mut b.cs, w.graph);
-        let prefix_effects = rsink.take().len();
         let effs = sink.take();
         let new_effects = effs.len().saturating_sub(if batch { prefix_effects } else { 0 });
         let stored = m.address().map(|addr| b.cs.command_exists(w.graph, addr, &mut buffers.traversal.primary)).unwrap_or(false);
@@ -390,16 +399,21 @@ fn run_case(line: &str) -> String {
             after = result_class(&r2);
         } else {
             let full = snapshot(&mut b.cs, w.graph);
-            let mut fullref = mk_device(&module, 5);
-            let _ = deliver(&mut fullref.cs, w.graph, &w.h, &mut VecSink::default());
-            if full != snapshot(&mut fullref.cs, w.graph) {
+            if full != full_want {
                 after = "diverged".into();
             }
         }
         let notes = |s: &str| s.matches(",Note[").count();
-        out.push(format!("M {spec}{} k={k} res={} commit={} pre={} same={} stored={} effects={} after={} facts={}/{} {}",
+        format!("M {spec}{} k={k} res={} commit={} pre={} same={} stored={} effects={} after={} facts={}/{} {}",
                          if batch { "@batch" } else { "" }, result_class(&r), if commit.is_ok() { "ok" } else { "err" }, pre_ok as u8,
-                         (want == got) as u8, stored as u8, new_effects, after, notes(&got), notes(&want), describe(&m, &a.machine)));
+                         (want == got) as u8, stored as u8, new_effects, after, notes(&got), notes(&want), describe(&m, &a.machine))
+        }));
+        match one {
+            Ok(s) => out.push(s),
+            // a panic while handling peer input: report it as the result, with the fields that caused it
+            Err(_) => out.push(format!("M {spec}{} k={k} res=panic commit=err pre=1 same=1 stored=0 effects=0 after=ok facts=0/0 {}",
+                                       if batch { "@batch" } else { "" }, describe(&m, &a.machine))),
+        }
     }
     out.join("|")
 }
